@@ -60,6 +60,8 @@ def generate(rng, tier: str, index: int) -> dict:
         'window_stall': rng.choice([0.0, 0.0, 0.5, 2.0]),
         # the peer confirms the OPEN with its first KEEPALIVE only after this long (legal up to the hold time)
         'ka_delay': round(rng.choice([0.0, 0.0, 0.0, 1.0, 0.4 * h, 0.6 * h]), 2) if h else 0.0,
+        # `local-as auto`: exabgp answers the peer's OPEN instead of sending first; the timers must be the same
+        'local_auto': rng.chance(0.15),
     }  # fmt: skip
 
 
@@ -72,7 +74,7 @@ def execute(plan: dict) -> dict:
     w.loop.stalls = [list(x) for x in plan['stalls']]
     stall_total = sum(x[1] for x in plan['stalls'])
     neighbor = {
-        'peer_ip': PEER, 'local_ip': LOCAL, 'local_as': 65001, 'peer_as': 65002, 'router_id': LOCAL, 'hold': hc,
+        'peer_ip': PEER, 'local_ip': LOCAL, 'local_as': 'auto' if plan.get('local_auto') else 65001, 'peer_as': 65002, 'router_id': LOCAL, 'hold': hc,
         'families': [(1, 1)], 'caps': {'route-refresh': True}, 'api': {'processes': ['h1']}, 'group-updates': False,
     }  # fmt: skip
     spk = Speaker(w, 'p1', PEER, 65002, PEER, LOCAL, hold=hs, caps=speaker_caps({'asn': 65002}))
